@@ -186,6 +186,13 @@ def build_cases(rng, sizes, full: bool) -> typing.Tuple[Tree, typing.List[Case]]
         t.file(path, data)
         ext = "." + path.rsplit(b".", 1)[-1].decode()
         cases.append(Case(path, data, mimeref.mime_for_ext(ext), data, ("content:binary", "name:long", "ext:" + ext)))
+    # HTML documents whose bytes are no valid UTF-8 (in the title, before it, without any title)
+    for nm, data in ((b"latin1.html", b"<html><head><title>Caf\xe9 au lait</title></head><body>d\xe9j\xe0 vu</body></html>\n"),
+                     (b"late.html", b"<html><!-- \xff\xfe junk before the title -->" + b"x" * 9000 + b"<title>Late</title><body>ok</body></html>"),
+                     (b"notitle.htm", b"<html><body>na\xefve, no title at all</body></html>"),
+                     (b"cut.html", b"<html><title>half a multi-byte character \xe2\x82")):
+        t.file(b"web/" + nm, data)
+        cases.append(Case(b"web/" + nm, data, "text/html", data, ("content:html-not-utf8", "name:plain", "ext:." + nm.rsplit(b".", 1)[-1].decode())))
     # HTML documents (title handler) and encoded files
     for j, title in enumerate(["T", None, "a <b> & c"]):
         data = trees.html_doc(title) + trees.gen_content(rng, 5000 * j, "text")
@@ -251,8 +258,52 @@ def rewritten_documents(chk: Check, site: driver.Site, root: str) -> None:
     os.unlink(path)
 
 
+def configured_encodings(chk: Check, sc: Scratch) -> None:
+    """A site whose configuration replaces the encoding table (the documented 'override the default entirely' form)
+    and whose mime.types gives the dropped suffixes a type of their own: the advertised types follow the configuration."""
+    root = sc.sub("enc-root")
+    mt = os.path.join(sc.path, "site-mime.types")
+    with open(driver.MIME_TYPES, "rb") as fp:
+        base = fp.read()
+    with open(mt, "wb") as fp:
+        fp.write(base + b"\napplication/gzip\t\t\tgz\napplication/x-compress\t\tz\n")
+    files = {b"backup.gz": "application/gzip", b"dump.sql.gz": "application/gzip", b"old archive.Z": "application/x-compress",
+             b"notes.txt.bz2": "application/octet-stream", b"plain.txt": "text/plain", b"picture.png": "image/png"}
+    t = Tree()
+    for k, nm in enumerate(files):
+        t.file(nm, b"payload %d\n" % k * 30)
+    t.materialize(root)
+    site = driver.Site(root, overrides={("pygopherd", "encoding"): "[('.bz2', 'bzip2')]", ("pygopherd", "mimetypes"): mt})
+    try:
+        for nm, want in files.items():
+            got = {}
+            for view in ("http", "httphead", "gemini", "spartan", "gopherp!"):
+                req, tls = reqs.render(view, b"/" + nm)
+                r = site.request(req, tls=tls)
+                chk.count("types_under_a_configured_encoding_table")
+                if view in ("http", "httphead"):
+                    try:
+                        got[view] = dict(parsers.parse_http(r.data)["headers"]).get("content-type", b"").decode()
+                    except parsers.Malformed:
+                        got[view] = "?"
+                elif view == "gopherp!":
+                    m = re.search(rb"\+VIEWS:\r\n ([^:]+):", r.data)
+                    got[view] = m.group(1).decode() if m else "?"
+                else:
+                    got[view] = r.data.split(b"\r\n", 1)[0].split(b" ", 1)[-1].decode("latin-1")
+            wrong = {v: g for v, g in got.items() if g != want}
+            if wrong:
+                chk.witness("C04/mime:configured-encoding-table", {"file": nm, "expected": want, "advertised": wrong})
+                return
+            chk.case(("configured-encodings", nm), None)
+    finally:
+        site.close()
+
+
 def run(chk: Check, sizes, nreal: int) -> None:
     with Scratch("c04") as sc:
+        if chk.args.shard in (None, 0):
+            configured_encodings(chk, sc)
         # log method: the request line (whatever bytes the name holds) is logged before anything is written
         plan = [("default", None, "file"), ("full", driver.HANDLERS_FULL, "syslog")]
         if chk.tier == "thorough":
